@@ -1,6 +1,7 @@
 (* C05 — Kernels are symmetric, positive semi-definite and correctly differentiable.
    Only statements + `exact`; the proofs live in C05Proofs.v / C05Aux.v / C05Deriv.v / C05GaussReal.v / C05PointSetProofs.v /
-   C05ExprProofs.v / C05BlocksProofs.v / C05TaskProofs.v, the executable model in C05Model.v / C05Expr.v / C05Blocks.v / C05Task.v.
+   C05ExprProofs.v / C05BlocksProofs.v / C05TaskProofs.v / C05NormProofs.v / C05NormFloat.v, the executable model in C05Model.v /
+   C05Expr.v / C05Blocks.v / C05Task.v / C05Norm.v.
 
    Setting.  The model is written once over an abstract carrier A; every theorem below holds for EVERY ordered
    field (record OrdField: field_theory with Leibniz equality + an order compatible with + and *, squares >= 0);
@@ -33,8 +34,10 @@
        tangent of the model code on dual numbers with parameters AND both inputs perturbed): ARDKernelUnconstrained
        (input gradient, per-dimension parameter gradient through gamma_i = exp(p_i)), polynomial offset / Gaussian gamma
        in plain and unconstrained (exp) encoding, ScaledKernel, NormalizedKernel (input and parameter gradients:
-       quotient rule through sqrt; premises: sqrtA is a non-zero square root of the diagonal values, multiplicative
-       on them, 1+1 <> 0, base kernel symmetric), WeightedSumKernel (log-weight gradients w_i (k_i W - N)/W^2,
+       quotient rule through sqrt; premises: sqrtA is a non-zero square root of the diagonal values, 1+1 <> 0, base kernel
+       symmetric; g_norm / p_norm divide the coefficients by sqrt(kxx)*sqrt(kzz) as /repo does since commit 65eec74d, so
+       C05_derivatives_normalized_without_multiplicativity no longer needs "sqrtA multiplicative on the diagonal values";
+       C05_derivatives_normalized keeps that premise in its statement, unused), WeightedSumKernel (log-weight gradients w_i (k_i W - N)/W^2,
        pass-through of the sub-kernels' parameter gradients scaled by w_i/W, input gradient), SubrangeKernelWrapper
        (gradient written into columns [a,b), parameter pass-through), ModelKernel with a LinearModel (chain rule:
        kernel parameters | model parameter gradient with the inner kernel's input gradients at (f x, f z) and (f z, f x));
@@ -89,7 +92,38 @@
        batch pairs j <= i, sub-matrices of the weights, factor 2 off the diagonal; model C05Blocks.kmpd, field KD) equals
        weightedParameterDerivative of the whole Gram matrix = sum_ij W_ij dk(x_i,x_j)/dp for symmetric weights and a
        symmetric coded gradient, hence does not depend on the batching.
-   ONLY COMPARED / MONITORED (tools/c05.py): the correspondence of the C++ with this model (exact on
+   PROVED (any ordered field, no axioms), ORDER OF OPERATIONS OF NormalizedKernel (C05Norm.v: norm_single = v / sqrt a / sqrt b as in
+       eval(x1,x2); norm_batch = v / (sqrt a * sqrt b) as in both batch overloads, matrices norm_rowdiv (state-less: per row
+       row / (sqrtKxx * sqrtKyy)) and norm_outer (with state: kxy / outer_prod(sqrt kxx, sqrt kyy)); norm_doc = v / sqrt(a * b), the
+       DOCUMENTED formula, which no value routine computes; v = k(x,z), a = k(x,x), b = k(z,z)):
+     * C05_normalized_single_order_eq_batch_order, C05_normalized_stateless_batch_eq_state_batch,
+       C05_normalized_single_matrix_eq_batch_matrix: the three coded orders agree (square roots non-zero);
+     * C05_normalized_coded_orders_eq_documented / _single_matrix_eq_documented_matrix / _single_eval_is_documented_value: they equal
+       k(x,z) / sqrt(k(x,x) k(z,z)) when k(x,x), k(z,z) > 0 (premises: sqrtA returns a non-negative root of a, b and a*b; the order is
+       antisymmetric at 0 - OrdField does not demand it; then sqrt(a*b) = sqrt a * sqrt b is derived, not assumed);
+     * C05_normalized_diagonal_one_coded_orders / _documented_order / _single_eval_diagonal_one: 1 on the diagonal in every order;
+     * C05_normalized_eval_overloads_agree: state-less batch (base batch result, diagonal from SINGLE base evaluations), batch with
+       state (diagonal from 1-element BATCH evaluations) = matrix of single evaluations; C05_normalized_coded_single_is_model /
+       _coded_state_batch_is_model: these are the functions k_norm / b_norm of the older theorems;
+     * C05_normalized_orders_real: the premises hold for Coq's reals with the real sqrt (real-number axioms).
+   PROVED IN IEEE BINARY64 (C05NormFloat.v; Flocq 4.1 IEEE754.Bits b64_mult / b64_div / b64_sqrt, round to nearest even, evaluated by
+       vm_compute, bit patterns compared; axioms as printed: the three real-number axioms above + Classical_Prop.classic, which Flocq's
+       correctness proofs inside the operations use): C05_normalized_orders_binary64_overflow_witness (k(x,x) = 2^600: coded orders
+       give 1.0, v / sqrt(a*b) gives 0), _underflow_witness (2^-600: 1.0 vs +infinity), _offdiagonal_witness (0.5 vs 0), hence
+       C05_normalized_one_division_order_refuted_binary64: the documented order is NOT equivalent to the coded one on doubles (this is
+       seeded change C05-5; the same defect was in /repo's derivative weights until 65eec74d).  NOT proved: a general binary64
+       theorem "the coded orders do not overflow when the quotient is representable" (false without |k(x,z)| <= sqrt(k(x,x) k(z,z)):
+       2^1000 / sqrt(2^-1000) overflows before the division by sqrt(2^1000)); rounding errors of any kernel.
+   ONLY COMPARED / MONITORED (tools/c05.py): MAGNITUDE STREAM on every run (W cases: the generated kernel expressions, polynomial
+       degrees up to 8, on integer inputs multiplied by 2^e such that k(x,x) reaches 2^+-500 .. 2^+-940 ~ 1e+-150 .. 1e+-280 while
+       every correct intermediate stays a normal double): the property's clauses with RELATIVE tolerances (symmetry, batch = single,
+       normalised diagonal, feature distance, Gram assembly / batching, eigenvalues of the rescaled Gram matrix), the exact
+       metamorphic relations value(2^e x) = 2^(e deg) value(x) and weightedInputDerivative(2^e x) = 2^(e (deg-1)) ... (x) for
+       homogeneous expressions (checks magnitude-scaling, derivative-scaling), the whole model in floating point at 1e-11 relative,
+       and - the tie of C05Norm - norm_single_mat / norm_rowdiv / norm_outer run on the base-kernel numbers printed by the C++
+       (N lines) must reproduce eval single / batch / batch-with-state BIT FOR BIT; the run also counts on how many lines norm_doc
+       would differ (obligation: > 0).  Non-homogeneous expressions have no derivative monitor at extreme magnitudes (model
+       comparison only).  Further: the correspondence of the C++ with this model (exact on
        integer/dyadic inputs, 1e-11 otherwise), including every g_ / p_ function above against the C++ derivative calls and
        the new model functions den / bden / gram_mixed / kmpd / gt_matrix / k_mtask (fields SE, BE, MX, KD, TK, MT);
        eigenvalues of the FLOATING-POINT Gram matrices (the theorems over R say nothing about rounding); derivatives of
@@ -737,3 +771,118 @@ Theorem C05_features_discrete_factorised : forall A (zero one : A) add mul sub d
   GramRepOn A zero add mul le nat (fun i => length (nth i a []) = r) (k_disc A zero tbl).
 Proof. exact gramrep_disc_factor. Qed.
 Print Assumptions C05_features_discrete_factorised.
+
+(* ======== NormalizedKernel: order of operations (C05Norm.v / C05NormProofs.v / C05NormFloat.v) ========
+   v = k(x,z), a = k(x,x), b = k(z,z).  norm_single: v / sqrt a / sqrt b (eval(x1,x2)); norm_batch: v / (sqrt a * sqrt b) (both batch
+   overloads; matrices norm_rowdiv, norm_outer); norm_doc: v / sqrt(a * b) (the documented formula, NOT what is computed).
+   posA t := 0 <= t /\ t <> 0; IsRoot t := 0 <= sqrtA t /\ sqrtA t * sqrtA t = t; AntiSym0 := 0 <= x -> 0 <= -x -> x = 0. *)
+From SharkV Require Import C05Norm C05NormProofs C05NormFloat.
+From Flocq Require Import IEEE754.Bits.
+Section NormStatements.
+Variable A : Type.
+Variables (zero one : A) (add mul sub div : A -> A -> A) (opp inv : A -> A) (le : A -> A -> Prop).
+Variable sqrtA : A -> A.
+Hypothesis OF : OrdField zero one add mul sub div opp inv le.
+Notation posA := (posA A zero le).
+Notation IsRoot := (IsRoot A zero mul le sqrtA).
+Notation AntiSym0 := (AntiSym0 A zero opp le).
+
+(* the single-pair order and the batch order agree (wherever the square roots are non-zero) *)
+Theorem C05_normalized_single_order_eq_batch_order : forall v a b, sqrtA a <> zero -> sqrtA b <> zero ->
+  norm_single A div sqrtA v a b = norm_batch A mul div sqrtA v a b.
+Proof. exact (norm_single_eq_batch A zero one add mul sub div opp inv le sqrtA OF). Qed.
+(* both equal the documented k(x,z) / sqrt(k(x,x) k(z,z)) when k(x,x), k(z,z) > 0 *)
+Theorem C05_normalized_coded_orders_eq_documented : forall v a b, AntiSym0 -> posA a -> posA b -> IsRoot a -> IsRoot b -> IsRoot (mul a b) ->
+  norm_single A div sqrtA v a b = norm_doc A mul div sqrtA v a b /\ norm_batch A mul div sqrtA v a b = norm_doc A mul div sqrtA v a b.
+Proof. exact (norm_orders_eq_doc A zero one add mul sub div opp inv le sqrtA OF). Qed.
+(* 1 on the diagonal, in every order *)
+Theorem C05_normalized_diagonal_one_coded_orders : forall a, a <> zero -> IsRoot a ->
+  norm_single A div sqrtA a a a = one /\ norm_batch A mul div sqrtA a a a = one.
+Proof. exact (norm_diag_orders A zero one add mul sub div opp inv le sqrtA OF). Qed.
+Theorem C05_normalized_diagonal_one_documented_order : forall a, AntiSym0 -> posA a -> IsRoot a -> IsRoot (mul a a) ->
+  norm_doc A mul div sqrtA a a a = one.
+Proof. exact (norm_diag_doc A zero one add mul sub div opp inv le sqrtA OF). Qed.
+(* matrix level, on the same base-kernel numbers R, kx, kz (what tools/c05.py runs bit for bit against the C++: fields NS, NB, NBS) *)
+Theorem C05_normalized_stateless_batch_eq_state_batch : forall (R : list (list A)) kx kz,
+  norm_rowdiv A mul div sqrtA R kx kz = norm_outer A mul div sqrtA R kx kz.
+Proof. exact (norm_rowdiv_eq_outer A mul div sqrtA). Qed.
+Theorem C05_normalized_single_matrix_eq_batch_matrix : forall (R : list (list A)) kx kz,
+  Forall (fun a => sqrtA a <> zero) kx -> Forall (fun b => sqrtA b <> zero) kz ->
+  norm_single_mat A div sqrtA R kx kz = norm_rowdiv A mul div sqrtA R kx kz.
+Proof. exact (norm_single_mat_eq_rowdiv A zero one add mul sub div opp inv le sqrtA OF). Qed.
+Theorem C05_normalized_single_matrix_eq_documented_matrix : forall (R : list (list A)) kx kz, AntiSym0 ->
+  Forall (fun a => posA a /\ IsRoot a) kx -> Forall (fun b => posA b /\ IsRoot b) kz ->
+  (forall a b, In a kx -> In b kz -> IsRoot (mul a b)) ->
+  norm_single_mat A div sqrtA R kx kz = norm_doc_mat A mul div sqrtA R kx kz.
+Proof. exact (norm_single_mat_eq_doc A zero one add mul sub div opp inv le sqrtA OF). Qed.
+(* kernel level: k_norm_coded / b_norm_state are the existing model functions k_norm / b_norm; the three eval overloads give the
+   matrix of single evaluations; the single evaluation is the documented value and 1 on the diagonal *)
+Theorem C05_normalized_coded_single_is_model : forall X (k : X -> X -> A), k_norm_coded A div sqrtA X k = k_norm A div sqrtA X k.
+Proof. exact (k_norm_coded_is_k_norm A div sqrtA). Qed.
+Theorem C05_normalized_coded_state_batch_is_model : forall X (bk : list X -> list X -> list (list A)) X1 X2,
+  b_norm_state A zero mul div sqrtA X bk X1 X2 = b_norm A zero mul div sqrtA X bk X1 X2.
+Proof. exact (b_norm_state_is_b_norm A zero mul div sqrtA). Qed.
+Theorem C05_normalized_eval_overloads_agree : forall X (k : X -> X -> A) (P : X -> Prop) bk X1 X2,
+  BatchOKOn A X P k bk ->
+  Forall (fun x => P x /\ sqrtA (k x x) <> zero) X1 -> Forall (fun x => P x /\ sqrtA (k x x) <> zero) X2 ->
+  b_norm_nostate A mul div sqrtA X k bk X1 X2 = mk A X (k_norm_coded A div sqrtA X k) X1 X2 /\
+  b_norm_state A zero mul div sqrtA X bk X1 X2 = mk A X (k_norm_coded A div sqrtA X k) X1 X2.
+Proof. exact (norm_overloads_agree A zero one add mul sub div opp inv le sqrtA OF). Qed.
+Theorem C05_normalized_single_eval_is_documented_value : forall X (k : X -> X -> A) x z, AntiSym0 -> posA (k x x) -> posA (k z z) ->
+  IsRoot (k x x) -> IsRoot (k z z) -> IsRoot (mul (k x x) (k z z)) ->
+  k_norm_coded A div sqrtA X k x z = k_norm_doc A mul div sqrtA X k x z.
+Proof. exact (norm_coded_is_documented A zero one add mul sub div opp inv le sqrtA OF). Qed.
+Theorem C05_normalized_single_eval_diagonal_one : forall X (k : X -> X -> A) x, k x x <> zero -> IsRoot (k x x) ->
+  k_norm_coded A div sqrtA X k x x = one.
+Proof. exact (norm_coded_diag_one A zero one add mul sub div opp inv le sqrtA OF). Qed.
+(* derivative weights in the repaired order c / (sqrt kxx * sqrt kzz) (/repo 65eec74d): C05_derivatives_normalized without the
+   premise that sqrtA is multiplicative on the diagonal values *)
+Theorem C05_derivatives_normalized_without_multiplicativity : forall (expA : A -> A) (Dir Pt Pt' : list A -> Prop) n m K k g p,
+  DOK A zero add mul Dir Pt n m K k g p -> (forall x z, k x z = k z x) -> two A one add <> zero ->
+  (forall x, Pt' x -> Pt x /\ mul (sqrtA (k x x)) (sqrtA (k x x)) = k x x /\ sqrtA (k x x) <> zero) ->
+  DOK A zero add mul Dir Pt' n m (K_norm A one add mul sub div sqrtA K) (k_norm A div sqrtA (list A) k)
+      (g_norm A one add mul div opp sqrtA k g) (p_norm A one add mul div opp sqrtA k p).
+Proof. intros expA. exact (DOK_norm_strong A zero one add mul sub div opp inv le sqrtA OF). Qed.
+End NormStatements.
+Print Assumptions C05_normalized_single_order_eq_batch_order.
+Print Assumptions C05_normalized_coded_orders_eq_documented.
+Print Assumptions C05_normalized_diagonal_one_coded_orders.
+Print Assumptions C05_normalized_diagonal_one_documented_order.
+Print Assumptions C05_normalized_stateless_batch_eq_state_batch.
+Print Assumptions C05_normalized_single_matrix_eq_batch_matrix.
+Print Assumptions C05_normalized_single_matrix_eq_documented_matrix.
+Print Assumptions C05_normalized_coded_single_is_model.
+Print Assumptions C05_normalized_coded_state_batch_is_model.
+Print Assumptions C05_normalized_eval_overloads_agree.
+Print Assumptions C05_normalized_single_eval_is_documented_value.
+Print Assumptions C05_normalized_single_eval_diagonal_one.
+Print Assumptions C05_derivatives_normalized_without_multiplicativity.
+(* the premises are satisfiable: Coq's reals with the real square root (standard real-number axioms) *)
+Theorem C05_normalized_orders_real : forall v a b : R, (0 < a)%R -> (0 < b)%R ->
+  norm_single R Rdiv sqrt v a b = (v / sqrt (a * b))%R /\ norm_batch R Rmult Rdiv sqrt v a b = (v / sqrt (a * b))%R /\
+  norm_single R Rdiv sqrt a a a = 1%R /\ norm_batch R Rmult Rdiv sqrt a a a = 1%R.
+Proof. exact norm_orders_real. Qed.
+Print Assumptions C05_normalized_orders_real.
+(* IEEE binary64 (Flocq b64_mult / b64_div / b64_sqrt, round to nearest even; values compared through their bit patterns): on
+   k(x,x) = 2^600 resp. 2^-600 the coded orders return 1.0, the one-division order returns 0 resp. +infinity; hence the documented
+   order is NOT an implementation of the coded ones on doubles (the seeded change C05-5).  Not proved: a general no-overflow theorem
+   for the coded orders (false without |k(x,z)| <= sqrt(k(x,x) k(z,z)): 2^1000 / sqrt(2^-1000) overflows before / sqrt(2^1000)). *)
+Theorem C05_normalized_orders_binary64_overflow_witness :
+  let a := d_pow2 600 in
+  d_bits (d_single a a a) = bits_one /\ d_bits (d_batch a a a) = bits_one /\ d_bits (d_doc a a a) = 0%Z.
+Proof. exact norm_orders_overflow_witness. Qed.
+Theorem C05_normalized_orders_binary64_underflow_witness :
+  let a := d_pow2 (-600) in
+  d_bits (d_single a a a) = bits_one /\ d_bits (d_batch a a a) = bits_one /\ d_bits (d_doc a a a) = bits_pinf.
+Proof. exact norm_orders_underflow_witness. Qed.
+Theorem C05_normalized_orders_binary64_offdiagonal_witness :
+  let v := d_of_int 3 598 in let a := d_pow2 600 in let b := d_of_int 9 598 in
+  d_bits (d_single v a b) = d_bits (d_of_int 1 (-1)) /\ d_bits (d_batch v a b) = d_bits (d_of_int 1 (-1)) /\ d_bits (d_doc v a b) = 0%Z.
+Proof. exact norm_orders_offdiagonal_witness. Qed.
+Theorem C05_normalized_one_division_order_refuted_binary64 :
+  ~ (forall v a b : binary64, d_bits (d_doc v a b) = d_bits (d_single v a b)).
+Proof. exact norm_doc_order_not_equivalent_binary64. Qed.
+Print Assumptions C05_normalized_orders_binary64_overflow_witness.
+Print Assumptions C05_normalized_orders_binary64_underflow_witness.
+Print Assumptions C05_normalized_orders_binary64_offdiagonal_witness.
+Print Assumptions C05_normalized_one_division_order_refuted_binary64.
